@@ -153,11 +153,14 @@ Definition morphology (op : mop) (crx cry w h : Z) (data : list px) : list px :=
            (zrange (Z.to_nat h) 0).
 
 (* ------------------------------------------------------------------ tiny-skia u8 blending used by clip/mask/merge
-   (lowp pipeline: div255(v) = (v + 255) >> 8).  Validated exhaustively against the real
-   Pixmap::apply_mask / draw_pixmap by the harness (apply-mask-table, over-table). *)
+   Pixmap::apply_mask runs the lowp pipeline: div255(v) = (v + 255) >> 8.
+   draw_pixmap (pattern shader) runs the float pipeline; its result is the exact value rounded to nearest
+   (k/255 is never a tie).  Both are validated exhaustively against the real tiny-skia by the harness tables
+   `mask` and `over:<d>`; tiny-skia itself is not modelled further. *)
 Definition div255 (v : Z) : Z := Z.shiftr (v + 255) 8.
 Definition scale_u8 (c m : Z) : Z := div255 (c * m).                 (* apply_mask: DestinationIn with coverage m *)
-Definition over_u8 (s sa d : Z) : Z := s + div255 (d * (255 - sa)).  (* SourceOver of (s, sa) onto d *)
+Definition round_div255 (v : Z) : Z := (2 * v + 255) / 510.          (* nearest integer to v / 255 *)
+Definition over_u8 (s sa d : Z) : Z := s + round_div255 (d * (255 - sa)).   (* SourceOver of (s, sa) onto d *)
 
 (* ------------------------------------------------------------------ identity primitives: early returns
    apply_offset / apply_blur return the very input image when the scaled offset / deviation is zero
